@@ -146,6 +146,7 @@ theorem fmtDecl_arrN (i : Decl) (single : Bool) (h : i.needsScope = false) :
 
 theorem pos_arraySize (x : XExpr) (h : needParen x.prec arraySizePrec arraySizeSide = false) : x.lvl ≤ 14 := by
   cases x with
+  | lit l => simp only [XExpr.prec, XExpr.lvl, litPrec] at h ⊢ <;> generalize litNegative l = b at h ⊢ <;> cases b <;> revert h <;> decide
   | un o _ => cases o <;> simp only [XExpr.prec, XExpr.lvl] at h ⊢ <;> revert h <;> decide
   | bin o _ _ => cases o <;> simp only [XExpr.prec, XExpr.lvl] at h ⊢ <;> revert h <;> decide
   | _ => simp only [XExpr.prec, XExpr.lvl] at h ⊢ <;> revert h <;> decide
